@@ -50,12 +50,13 @@ def explore_set(args):
     make = sw.make_app_json if is_json else sw.make_app
     for n in set(names):
         if n != 'wsdl':
-            solo[n] = sw.canon(sw.call(WsgiApplication(make()), n)[1])
+            r0 = sw.call(WsgiApplication(make()), n)
+            solo[n] = (sw.canon(r0[1]), r0[2])
     seq_wsdl = set()
     for perm in (set(itertools.permutations(names)) if not is_json else ()):
         w = WsgiApplication(make())
         for n in perm:
-            st, b = sw.call(w, n)
+            st, b, _h = sw.call(w, n)
             if n == 'wsdl':
                 seq_wsdl.add(sw.canon_doc(b))
         seq_wsdl.add(sw.canon_doc(sw.call(w, 'wsdl')[1]))
@@ -102,7 +103,7 @@ def explore_set(args):
                     out.append(('shared|wsdl-differs|%s' % where,
                                 'the ?wsdl served while racing with %s is not one any sequential order produces' % where,
                                 {'schedule': sched, 'requests': names, 'len': len(r[1])}))
-            elif sw.canon(r[1]) != solo[n]:   # prefix-independent comparison
+            elif (sw.canon(r[1]), r[2]) != solo[n]:   # prefix-independent comparison of the body; status line aside, the headers too
                 out.append(('shared|response-differs|%s|%s' % (n, where),
                             'request %s got a different response than alone (racing with %s)' % (n, where),
                             {'schedule': sched, 'requests': names, 'got': r[1][-300:].decode('utf8', 'replace')}))
@@ -121,7 +122,7 @@ def run(ctx, rnd):
     import multiprocessing as mp
     m1(ctx)
     sets = [('fp', 'fq'), ('fq', 'fp', 'f'), ('f', 'boom', 'invalid'), ('wsdl', 'fq'), ('g', 'fp', 'wsdl'),
-            ('pt', 'pt2'), ('seg', 'pt'), ('pts', 'seg', 'pt')]
+            ('pt', 'pt2'), ('seg', 'pt'), ('pts', 'seg', 'pt'), ('tag1', 'tag2'), ('tag1', 'pt')]
     if not ctx.quick:
         sets += [('fp', 'fq', 'wsdl'), ('fp', 'fp'), ('wsdl', 'wsdl', 'fq'), ('f', 'g'), ('invalid', 'fq', 'boom'),
                  ('fp', 'fq', 'f', 'g')]
